@@ -89,7 +89,10 @@ def apply_prefix(s, ops):
         if n in ("quantise", "quantise_same"):
             s.quantise(None if op.get("steps") is None else list(op["steps"]))
         elif n == "qnl":
-            s.quantise_note_lengths()
+            if "values" in op:
+                s.quantise_note_lengths(None if op["values"] is None else list(op["values"]), do_not_extend=op.get("dne", False))
+            else:
+                s.quantise_note_lengths()
         elif n == "normalise":
             s.normalise()
         elif n == "cutoff":
@@ -124,3 +127,13 @@ def apply_prefix(s, ops):
             from scoda.sequences.sequence import Sequence
             s.merge([Sequence()])
     return s
+
+
+EDIT_OPS = ["cutoff", "set_channel", "transpose", "concat_copy", "iter_rel_velocity_edit", "pad", "scale", "merge_empty"]
+
+
+def same_then_edit(rng, same_op):
+    """prefix pattern [the operation under test with the same arguments, an in-place edit]: whatever the library remembers
+    from the first call is stale when the call under test arrives"""
+    e = [op for op in random_prefix(rng, n=(3, 3)) if op["op"] in EDIT_OPS][:1] or [{"op": "cutoff", "m": 9, "r": 4}]
+    return [same_op] + e
